@@ -130,7 +130,7 @@ func metaEqual(got map[string]string, want map[string]string) bool {
 // Features a check may rely on.
 type Feat struct {
 	MovesHistory, EffectiveVolumes, AccMetaHistory, TxMetaHistory bool
-	HashLogs                                                     string
+	HashLogs                                                      string
 }
 
 func FeatOf(l ledger.Ledger) Feat {
